@@ -43,3 +43,66 @@ Print Assumptions C09_times_payload.
 Print Assumptions C09_closed_form.
 Print Assumptions C09_back.
 Print Assumptions C09_preserves_wf.
+
+(* ---- the round trip "d, then -d" cue by cue inside ANY list (audit follow-up; Proofs/OpsAddExtra.v) ---- *)
+From Coq Require Import Bool.
+From Astisub Require Import Proofs.OpsAddExtra.
+
+(* closed form, for every list of cues with start <= end: the cues that survive both shifts are those with
+   0 < end + d and 0 < end, in their original order; each keeps identity, content and end, and its start becomes
+   max 0 (max 0 (start + d) - d) *)
+Theorem C09_round_closed : forall d l, Forall wf_item l ->
+  add_dur (- d) (add_dur d l) = map (fun x => set_st x (round_start d (st x))) (filter (round_alive d) l).
+Proof. exact add_round_survivors. Qed.
+Theorem C09_round_pointwise : forall d l, Forall wf_item l ->
+  Forall2 (fun x y => en y = en x /\ st y = round_start d (st x) /\ same_payload x y /\ (restorable0 d x -> y = x))
+          (filter (round_alive d) l) (add_dur (- d) (add_dur d l)).
+Proof. exact add_round_pointwise. Qed.
+(* a cue comes back as it was iff it was neither clamped (0 <= start + d) nor removed (0 < end + d), being a legal cue
+   (0 <= start, 0 < end) *)
+Theorem C09_round_restores_iff : forall d x, wf_item x -> (round1 d x = Some x <-> restorable0 d x).
+Proof. exact round1_restores_iff. Qed.
+(* ... and it comes back IN PLACE inside a list that also contains clamped and removed cues *)
+Theorem C09_back_in_place : forall d l1 x l2, Forall wf_item (l1 ++ x :: l2) -> restorable0 d x ->
+  add_dur (- d) (add_dur d (l1 ++ x :: l2)) = add_dur (- d) (add_dur d l1) ++ x :: add_dur (- d) (add_dur d l2).
+Proof. exact add_round_in_place. Qed.
+(* a clamped cue is not restored: its start comes back as -d, later than it was *)
+Theorem C09_round_clamped : forall d x, 0 <= st x -> st x + d < 0 -> 0 < en x + d -> 0 < en x ->
+  round1 d x = Some (set_st x (- d)) /\ st x < - d.
+Proof. exact round1_clamped. Qed.
+(* the whole list comes back under the weaker "not clamped" 0 <= start + d (C09_back asks 0 < start + d) *)
+Theorem C09_back0 : forall d l, Forall (restorable0 d) l -> add_dur (- d) (add_dur d l) = l.
+Proof. exact add_back0. Qed.
+(* zero-length cues (start = end): one shift moves them by exactly d or removes them, never clamps; the round trip
+   restores them exactly or drops them; the one at instant 0 never survives a round trip *)
+Theorem C09_zero_length_shift : forall d x, st x = en x ->
+  shift1 d x = if 0 <? st x + d then Some (set_st (set_en x (en x + d)) (st x + d)) else None.
+Proof. exact shift1_zero_length. Qed.
+Theorem C09_zero_length_round : forall d x, st x = en x ->
+  round1 d x = if (0 <? st x + d) && (0 <? st x) then Some x else None.
+Proof. exact round1_zero_length. Qed.
+(* [round1] is what the two shifts do to one cue *)
+Theorem C09_round1_meaning : forall d x, wf_item x ->
+  match shift1 d x with Some x' => shift1 (- d) x' | None => None end = round1 d x.
+Proof. exact shift1_round. Qed.
+
+(* non-vacuity: cues with text; removed (2), clamped (3), zero-length landing on 0 (4), zero-length surviving (5),
+   dead from the start (6), landing exactly on 0 without being clamped (7), plainly restored (1) *)
+Example C09_round_example :
+  map (fun x => (uid x, st x, en x, item_text x)) (add_dur (- (-3)) (add_dur (-3) ex_mixed)) =
+  [(1%N, 5, 9, [65%N]); (3%N, 3, 4, [67%N]); (5%N, 4, 4, [69%N]); (7%N, 3, 8, [71%N])].
+Proof. exact ex_mixed_round. Qed.
+Example C09_round_example_hyps : Forall wf_item ex_mixed /\
+  restorable0 (-3) (ex_cue 1 5 9 65) /\ restorable0 (-3) (ex_cue 7 3 8 71) /\
+  ~ restorable0 (-3) (ex_cue 3 1 4 67) /\ ~ restorable (-3) (ex_cue 7 3 8 71).
+Proof. split; [exact ex_mixed_wf | exact ex_mixed_restorable]. Qed.
+
+Print Assumptions C09_round_closed.
+Print Assumptions C09_round_pointwise.
+Print Assumptions C09_round_restores_iff.
+Print Assumptions C09_back_in_place.
+Print Assumptions C09_round_clamped.
+Print Assumptions C09_back0.
+Print Assumptions C09_zero_length_shift.
+Print Assumptions C09_zero_length_round.
+Print Assumptions C09_round1_meaning.
